@@ -20,6 +20,11 @@ use std::sync::{Arc, Mutex};
 use std::time::Duration;
 use tokio::sync::Barrier;
 
+/// the greeting of the server is the same on every connection (it does not know yet who connected)
+fn gbyte(k: usize) -> u8 {
+    sbyte(7, k + 3)
+}
+
 fn sbyte(conn: usize, k: usize) -> u8 {
     let x = (k as u32).wrapping_mul(2654435761).wrapping_add(conn as u32 * 0x85eb);
     ((x >> 11) ^ (x >> 3)) as u8
@@ -30,6 +35,8 @@ struct ClientPlan {
     c: usize,
     stream: bool,
     writes: Vec<(u64, usize)>, // (pause before the write in microseconds, length)
+    /// the server speaks first: the client reads this many greeting bytes before it writes anything
+    greet: usize,
 }
 
 struct Client {
@@ -45,6 +52,8 @@ struct Server {
     first_read_delay_us: u64,
     watchdog_s: u64,
     done: Arc<AtomicU32>,
+    /// bytes the server writes on every accepted connection before it reads (0 = it only reads)
+    greet: usize,
 }
 
 /// C14: a machine that puts frames with undecodable headers on the wire between the legitimate traffic
@@ -119,6 +128,22 @@ impl Protocol for Client {
             return Ok(());
         }
         emit(json!({"ev":"connected","c":c}));
+        if self.plan.greet > 0 {
+            let mut got = 0usize;
+            while got < self.plan.greet {
+                let n_req = [1000usize, 7, 100000][(c + got) % 3];
+                let data = match sock.recv(n_req).await {
+                    Ok(d) => d,
+                    Err(_) => break,
+                };
+                let ok = data.iter().enumerate().take_while(|(i, b)| **b == gbyte(got + i)).count();
+                emit(json!({"ev":"cread","c":c,"n":n_req,"off":got,"len":data.len(),"ok":ok}));
+                if data.is_empty() {
+                    break;
+                }
+                got += data.len();
+            }
+        }
         let mut off = 0usize;
         for (k, (pause, len)) in self.plan.writes.iter().enumerate() {
             if *pause > 0 {
@@ -166,6 +191,12 @@ impl Protocol for Server {
                 Ok(s) => s,
                 Err(_) => break,
             };
+            if self.greet > 0 {
+                let bytes: Vec<u8> = (0..self.greet).map(gbyte).collect();
+                if sock.send(bytes).is_err() {
+                    emit(json!({"ev":"greet_err"}));
+                }
+            }
             let (stream, reads, totals, slow, done, n, sd) =
                 (self.stream, self.reads.clone(), self.totals.clone(), self.slow_us, self.done.clone(), self.nclients as u32, shutdown.clone());
             let first_delay = self.first_read_delay_us;
@@ -272,10 +303,16 @@ pub fn scenario(run: u64, rng: &mut SmallRng, flavour: usize, backlog: bool, att
             let len = if backlog { 1 } else if stream { len.min(cap) } else { len };
             writes.push((if backlog { 6000 } else if spaced { [0u64, 1000, 6000, 20000][rng.gen_range(0..4)] } else { 0 }, len));
         }
-        plans.push(ClientPlan { c, stream, writes });
+        plans.push(ClientPlan { c, stream, writes, greet: 0 });
+    }
+    // every third stream scenario: the server speaks first (a greeting on every accepted connection, read by the client
+    // before it writes anything)
+    let greet = if stream && !backlog && rng.gen_range(0..3) == 0 { [1usize, 10, 300, 3000][rng.gen_range(0..4)] } else { 0 };
+    for p in plans.iter_mut() {
+        p.greet = greet;
     }
     let totals: Vec<usize> = plans.iter().map(|p| p.writes.iter().map(|w| w.1).sum()).collect();
-    begin_run(run, json!({"stream":stream,"mtu":mtu,"nclients":nclients,"loss":loss,"dup":dup,"flavour":flavour,"backlog":backlog,"totals":totals,
+    begin_run(run, json!({"stream":stream,"mtu":mtu,"nclients":nclients,"loss":loss,"dup":dup,"flavour":flavour,"backlog":backlog,"totals":totals,"greet":greet,
                           "nwrites": plans.iter().map(|p| p.writes.len()).collect::<Vec<_>>()}));
     let table = || -> IpTable<Recipient> { [("0.0.0.0/0", Recipient::new(0, None))].into_iter().collect() };
     let done = Arc::new(AtomicU32::new(0));
@@ -286,7 +323,7 @@ pub fn scenario(run: u64, rng: &mut SmallRng, flavour: usize, backlog: bool, att
         .with(Arp::new())
         .with(Pci::new([net.clone()]))
         .with(SocketAPI::new(Some(Ipv4Address::new(SERVER_IP))))
-        .with(Server { stream, nclients, reads, totals: totals.clone(), slow_us, first_read_delay_us: if backlog { 3_000_000 } else { 0 }, watchdog_s: if flavour == 0 { 40 } else { 8 }, done })
+        .with(Server { stream, nclients, reads, totals: totals.clone(), slow_us, first_read_delay_us: if backlog { 3_000_000 } else { 0 }, watchdog_s: if flavour == 0 { 40 } else { 8 }, done, greet })
         .arc()];
     for p in &plans {
         machines.push(
